@@ -168,6 +168,8 @@ def run(ctx, res):
                 mn = st['MIN'][4:-1]
                 reqs.append('dotdfa pinned %d %s' % (BASE[sh], mn)); index.append((i, sh, 'dfa-model'))
                 reqs.append('dotjudgedfa %d %s %s' % (BASE[sh], mn, st['DFADOT'])); index.append((i, sh, 'dfa-judge'))
+                if sh == 'bash':
+                    reqs.append('dotwf %s' % mn); index.append((i, sh, 'wf'))
                 if 'TABLES' in st:
                     reqs.append('dotsubids %d %s' % (BASE[sh], mn)); index.append((i, sh, 'subids'))
     outs = model.run(reqs)
@@ -255,6 +257,12 @@ def run(ctx, res):
                             res.violations.append(report.Violation('C16: ' + what, rp, cls=cl))
                     else:
                         res.violations.append(report.Violation('C16: ' + what, rp))
+                # the hypothesis of the theorems holds for the automaton Rust produced
+                if by.get((i, sh, 'wf'), 'true') != 'true':
+                    ok = False
+                    res.violations.append(report.Violation(
+                        'C16: Rust\'s minimised automaton is not well-formed in the sense of the theorems (wf_cdfa): ' + by[(i, sh, 'wf')],
+                        dict(replay, kind='theorem-hypothesis'), found_input=False))
                 # numbering of the clusters = numbering of the within-word automata in the script's tables
                 if (i, sh, 'subids') in by and 'TABLES' in st:
                     want = cluster_ids_from_tables(st['TABLES'])
